@@ -1083,6 +1083,16 @@ VmTrap vm_core_execute(VmState *vm) {
                 vm_release(&vm->heap, v);
             }
 
+            /* CALL_INDIRECT / CLOSURE_CALL moved the callee's reference from the
+             * operand stack into the frame: give it back now */
+            if (frame->closure) {
+                NanoValue callee_ref = {0};
+                callee_ref.tag = TAG_FUNCTION;
+                callee_ref.as.closure = frame->closure;
+                frame->closure = NULL;
+                vm_release(&vm->heap, callee_ref);
+            }
+
             /* Save the returning function's return_ip (points to instruction
              * after the CALL in the caller) before we pop the frame */
             uint32_t ret_ip = frame->return_ip;
